@@ -177,3 +177,41 @@ PROPS["C14"] = dict(
     assumptions=["causes inside the crypto libraries (e.g. provider-internal allocation failure) are not reachable from outside and not catalogued"],
     budget_s=dict(quick=600, thorough=1200),
 )
+
+# ---------------------------------------------------------------- C16
+PROPS["C16"] = dict(
+    level="model_checking",
+    technique="explicit-state BFS over keyring operation histories on the real jwk_set (dedup on the model list), reference list advanced in lock-step, all observers compared after every step",
+    level_text=("breadth-first search over histories of 14 operations (loads of a good key, a duplicate-kid key, a bad key, a mixed "
+                "three-element set, non-JSON, an empty set; free at first/middle/last/n/SIZE_MAX; free_bad; free_all; error_clear) "
+                "with the list capped at 9 items, depth 5 (quick) / 8 (thorough); every history is replayed on a fresh real keyring "
+                "and after every step count, get(i) for i <= n+1, find_bykid for seven kids, error_any, set error and per-item "
+                "kid/kty/error are compared with ref_list; ASan watches for use-after-free; live blocks of libjwt, jansson and "
+                "libcrypto are counted per history for leaks"),
+    level_note="ref_list = model_list_step() in harness/jwk.c; states merged on the model list + set error flag, which determine every observer",
+    rule=("states = distinct model lists; transitions = state x operation, each executed on the real keyring by replaying the state's "
+          "shortest history; non-trivial = the operation changed the list or the error flag"),
+    runs=lambda tier: [dict(harness="jwk")],
+    bound=dict(quick="depth 5, list length <= 9", thorough="depth 8, list length <= 9"),
+    assumptions=["libcrypto allocation accounting uses CRYPTO_set_mem_functions; a non-zero delta is confirmed by two repeat runs before it is called a leak"],
+    budget_s=dict(quick=600, thorough=3000),
+)
+
+# ---------------------------------------------------------------- C07
+PROPS["C07"] = dict(
+    level="exploration",
+    technique="exhaustive enumeration of bounded input families (short strings, all truncations, JSON-shape products, member x shape type-confusion matrix) through every entry point on the real code under ASan/UBSan with block-exact leak accounting",
+    level_text=("every string of length <= 4 over an 11-character JSON alphabet, every truncation of a valid three-key JWKS (also with "
+                "an embedded NUL), every JSON type as document / as value of keys / as array element in all pairs, counted-length "
+                "variants, and for ten JWK templates every member x 16 shapes (thorough: every pair of members x pair of shapes) is "
+                "loaded through the applicable entry points; set error, item count, document order (set vs element-by-element), "
+                "per-item error/message/material and agreement between entry points are judged against jansson's own verdict on "
+                "the text; every imported key is then used for a sign/verify attempt (memory safety only)"),
+    level_note="trusts jansson's json_loadb(JSON_DECODE_ANY) as the definition of 'is JSON'; ASan/UBSan for the crash clause; live-block counts of libjwt+jansson+libcrypto for leaks",
+    rule=("evaluations = load calls judged; cases group inputs by family; non-trivial = distinct documents (by content hash) that "
+          "produced at least one item; distinct outcomes = (set error, item count) vectors"),
+    runs=lambda tier: [dict(harness="jwk", args=["--param", 0])] + ([dict(harness="jwk", args=["--param", 1])] if tier == "thorough" else []),
+    bound=dict(quick="single deviations (10 templates x 17 members x 16 shapes)", thorough="all pairs of deviations; both providers"),
+    assumptions=["uninitialised reads are invisible to ASan/UBSan (DESIGN section 5)"],
+    budget_s=dict(quick=600, thorough=3000),
+)
